@@ -11,6 +11,7 @@
 // mode=long  case index = random long message (repeated pattern), random chunking
 // mode=sip   case index = key number; lengths 0..129 x offsets 0..15
 #include <verif.hpp>
+#include <slice.hpp>
 
 #include <tlx/digest/md5.hpp>
 #include <tlx/digest/sha1.hpp>
@@ -74,7 +75,8 @@ struct Algo {
 
 //! feed msg to h in the chunks given by cut points (sorted, within [0,len])
 template <typename H>
-static std::string digest_chunked(const std::string& m, const std::vector<size_t>& cuts, bool via_sv) {
+static std::string digest_chunked(const std::string& msg, const std::vector<size_t>& cuts, bool via_sv) {
+    verif::Slice m(msg);   // the message bytes are not followed by a terminator or slack
     H h;
     size_t prev = 0;
     for (size_t c : cuts) {
@@ -89,9 +91,10 @@ static std::string digest_chunked(const std::string& m, const std::vector<size_t
 }
 
 template <typename H>
-static void check_message(const Algo<H>& A, const MsgId& id, const std::string& m, Rng& rng,
+static void check_message(const Algo<H>& A, const MsgId& id, const std::string& msg, Rng& rng,
                           size_t all_splits_upto) {
     std::string key = std::string("C14:") + A.name;
+    verif::Slice m(msg);   // the one-shot entry points read from a block without terminator or slack
     // one-shot reference within tlx
     H h0;
     h0.process(m.data(), (std::uint32_t)m.size());
@@ -116,7 +119,7 @@ static void check_message(const Algo<H>& A, const MsgId& id, const std::string& 
     if (A.hexuc_sv(tlx::string_view(m.data(), m.size())) != hexuc(raw)) verif::fail(key + ":_hex_uc(string_view)", id.str());
 
     auto expect = [&](const std::vector<size_t>& cuts, bool sv, const char* what) {
-        std::string d = digest_chunked<H>(m, cuts, sv);
+        std::string d = digest_chunked<H>(msg, cuts, sv);
         if (d != raw) {
             verif::fail(key + ":chunking", id.str() + " " + what + " cuts=[" +
                         verif::join_range(cuts.begin(), cuts.end()) + "] digest " + hexlc(d) +
@@ -239,6 +242,15 @@ static void mode_sip(Rng& rng, uint64_t index) {
                             " siphash()=" + std::to_string(b) + " sse2=" + std::to_string(c));
             if (a != first) verif::fail("C14:siphash:alignment", where);
             verif::count("siphash_evaluations", 3);
+        }
+        {   // the same message in a block without slack behind it (exact size under ASan)
+            verif::Slice ex(m.data(), len);
+            const uint8_t* ep = reinterpret_cast<const uint8_t*>(ex.data());
+            bool ok = tlx::siphash_plain(key, ep, len) == first && tlx::siphash(key, ep, len) == first;
+#if defined(__SSE2__)
+            ok = ok && tlx::siphash_sse2(key, ep, len) == first;
+#endif
+            if (!ok) verif::fail("C14:siphash:exact-buffer", "len=" + std::to_string(len));
         }
         if (index == 2) {
             // the default-key convenience overloads use key 00..0f
